@@ -34,6 +34,8 @@ def generate_all(verbose=False):
         except Exception:
             ok = False
             traceback.print_exc()
+            write_if_changed(os.path.join(GEN, name + ".v"),
+                             "(* GENERATION FAILED: the translator rejected the source; nothing is defined here *)\n")
     return ok
 
 
